@@ -127,6 +127,12 @@ func MoreRows() []Row {
 		add(intRow("MergeWith(Empty,Empty)[spare cap]", "MergeWith", S|Creates, func(e *Env) Op[int, int] {
 			return Op[int, int](ro.MergeWith(spareObs(ro.Empty[int](), ro.Empty[int]())...))
 		}, identity))
+		add(intRow("RaceWith(never,never)[spare cap]", "RaceWith", S|Creates, func(e *Env) Op[int, int] {
+			never := func() ro.Observable[int] {
+				return ro.NewObservable(func(ro.Observer[int]) ro.Teardown { return nil })
+			}
+			return Op[int, int](ro.RaceWith(spareObs(never(), never())...))
+		}, identity))
 		add(intRow("StartWith(8,9)[spare cap]", "StartWith", S|Creates, func(e *Env) Op[int, int] {
 			return Op[int, int](ro.StartWith(spareInts(8, 9)...))
 		}, func(in []h.Ev) []h.Ev {
